@@ -110,6 +110,6 @@ fn check(case: &LedgerCase, obs: &mut Obs) -> Verdict {
 pub fn def() -> PropDef {
     let mut d = PropDef::new("C17", "error-free generated inputs with 2-4 securities, several settlements per day per security (buy then full sale on one day), long gaps, rows of registered and other affiliates, opening positions, rendered with --total-costs --print-full-values. The tables are recomputed independently from the tool's own per-row ledger (default non-registered affiliate): per dated row and security the maximum post-row ACB among that day's rows, else the ACB after its most recent earlier row, else its opening ACB; total = sum; yearly row = a day of the year whose total equals the year's maximum, with that day's figures; one 'ignored' note per row of another affiliate. Non-trivial = a security with two different ACBs on one day (max != close) followed by a later day on which that security has no row. Distinct = distinct case content.");
     d.assumptions = vec!["inputs with a rejected security are skipped (the property covers inputs that process without error)", "any tied day is accepted for the yearly maximum"];
-    d.subs.push(Box::new(Sub::<LedgerCase> { name: "costs", cases_quick: 15_000, cases_thorough: 600_000, strategy: Box::new(strategy), to_json: LedgerCase::to_json, from_json: LedgerCase::from_json, check }));
+    d.subs.push(Box::new(Sub::<LedgerCase> { name: "costs", cases_quick: 45_000, cases_thorough: 600_000, strategy: Box::new(strategy), to_json: LedgerCase::to_json, from_json: LedgerCase::from_json, check }));
     d
 }
